@@ -5,6 +5,7 @@ model events (+ the reactions observed on the implementation), one request line 
 Layer A (AJ/Model/Run.lean): starting of jobs, window slots, nesting.
 Layer B (AJ/Model/Full.lean): exits, cancellation, verdicts, shutdown.
 """
+import re
 from dyn_gen import index
 
 # Which differences between the model and the implementation break which property's tie (DESIGN.md 3.3).
@@ -434,6 +435,11 @@ def replay_all(pid, traces, res, drv):
             res.mismatches.append(("harness:translate", {"scenario": sc}, "-", traceback.format_exc()[-600:]))
             continue
         cfg = cfg_tokens(sc, ids, order)
+        for layer, evl in (("A", A), ("B", B if "B" in layers and not sc.get("rerun") else [])):
+            km = res.dist.setdefault("model_events_layer" + layer, {})
+            for tok in evl:
+                k = re.split(r"[_~]", tok, 1)[0]
+                km[k] = km.get(k, 0) + 1
         lines.append("replayA %s mode=%s ev=%s" % (cfg, A_MODE.get(pid, "strict"), ";".join(A)))
         cases.append((sc, "A", len(A)))
         if "B" in layers and not sc.get("rerun"):
@@ -447,6 +453,11 @@ def replay_all(pid, traces, res, drv):
         res.count("replay" + layer)
         nev[layer] += n
         if out.startswith("ok"):
+            if " cov=" in out:
+                km = res.dist.setdefault("model_branches_layerB", {})
+                for lab in out.split(" cov=", 1)[1].split(","):
+                    if lab:
+                        km[lab] = km.get(lab, 0) + 1
             continue
         if not out.startswith("diff"):
             res.mismatches.append(("bad@" + layer, {"kind": "scenario", "scenario": sc, "request": line[:4000]}, "accepted", out[:1500]))
